@@ -1,0 +1,11 @@
+//go:build verif
+
+package hseq
+
+import "reflect"
+
+// VerifUnfold exposes unfold for struct types that only exist at run time
+// (reflect.StructOf). Compiled only with the build tag `verif`.
+func VerifUnfold[T any](cat reflect.Type) Seq[T] {
+	return unfold(cat, make(Seq[T], 0), 0)
+}
